@@ -242,6 +242,9 @@ func Gen(o Options) *Program {
 	if o.Recursive && simrt.Flip("prog.recursive", 0.4) {
 		p.addRecursion()
 	}
+	if !o.NoServices && simrt.Flip("prog.service-chain", 0.4) {
+		p.addServiceChain(o)
+	}
 	if o.StructConsts && simrt.Flip("prog.enum-struct-const", 0.5) {
 		p.addEnumStructConst(o)
 	}
@@ -306,6 +309,37 @@ func (p *Program) addRecursion() {
 		}
 	}
 	s.Fields = append(s.Fields, &FieldDef{ID: id, Name: fmt.Sprintf("self%d", id), Req: ReqOptional, Type: target})
+}
+
+// addServiceChain adds an inheritance chain of three services over an include
+// path a -> b -> c (Leaf in a extends b.Mid, Mid extends c.Base); a does not
+// necessarily include c itself, so the grandparent lives in a file the leaf's
+// file only reaches transitively.
+func (p *Program) addServiceChain(o Options) {
+	type path struct{ a, b, c int }
+	var paths []path
+	for _, fa := range p.Files {
+		for _, b := range fa.Includes {
+			for _, c := range p.Files[b].Includes {
+				if c != fa.Index && c != b {
+					paths = append(paths, path{fa.Index, b, c})
+				}
+			}
+		}
+	}
+	if len(paths) == 0 {
+		return
+	}
+	pt := paths[ch("chain.path", len(paths))]
+	mk := func(fi int, name string, parent *Ref) *Def {
+		f := p.Files[fi]
+		d := &Def{Kind: KService, Name: p.name(name), Parent: parent}
+		d.Funcs = append(d.Funcs, &Func{Name: fmt.Sprintf("fn%d_0", p.seq), Args: p.genFields(f, "arg", 2, o, false)})
+		return p.add(f, d)
+	}
+	base := mk(pt.c, "Base", nil)
+	mid := mk(pt.b, "Mid", &Ref{base.File, base.Name})
+	mk(pt.a, "Leaf", &Ref{mid.File, mid.Name})
 }
 
 // addEnumStructConst adds a struct whose optional fields have enum / typedef
